@@ -70,4 +70,65 @@ def invLine (s : CL.St) (pool : Nat) (denoms : List String) (k : Int) : String :
   else if bad.isEmpty && sharesOk s pool then "inv ok"
   else "inv FAIL " ++ " ".intercalate bad ++ (if sharesOk s pool then "" else " shares")
 
+/-! ### lock-step comparison: abstraction of the concrete step = abstract steps of the abstraction -/
+
+/-- the guards of `Op.guard`, with the tick quantifiers evaluated on a finite list that contains every stored tick -/
+def guardOn (ts : List Int) (s : St) : Op → Bool
+  | .openPos lo hi δ => decide (lo < hi) && decide (0 < δ)
+  | .change i δ => match s.pos[i]? with | some p => decide (0 < p.s) && decide (0 ≤ p.s + δ) | none => false
+  | .claim i => match s.pos[i]? with | some p => decide (0 < p.s) | none => false
+  | .fee f => decide (0 ≤ f)
+  | .crossUp t => decide (s.cur < t) && ts.all (fun u => !(decide (s.cur < u) && decide (u < t)) || s.gross u == 0)
+  | .crossDown t => decide (t ≤ s.cur) && ts.all (fun u => !(decide (t < u) && decide (u ≤ s.cur)) || s.gross u == 0)
+  | .moveWithin t' =>
+    (decide (s.cur ≤ t') && ts.all (fun u => !(decide (s.cur < u) && decide (u ≤ t')) || s.gross u == 0))
+    || (decide (t' ≤ s.cur) && ts.all (fun u => !(decide (t' < u) && decide (u ≤ s.cur)) || s.gross u == 0))
+
+/-- run abstract ops, refusing any whose guard fails -/
+def runOps (ts : List Int) (s : St) : List Op → Option St
+  | [] => some s
+  | op :: rest => if guardOn ts s op then runOps ts (step s op) rest else none
+
+def posKey (p : Pos) : List Int := [p.lo, p.hi, p.s, p.c, p.u]
+def keyLe : List Int → List Int → Bool
+  | [], _ => true
+  | _ :: _, [] => false
+  | a :: as, b :: bs => if a < b then true else if b < a then false else keyLe as bs
+
+/-- live positions as a sorted list of tuples (the concrete store deletes a position whose liquidity reaches zero) -/
+def canonPos (l : List Pos) : List (List Int) := ((l.filter (fun p => decide (0 < p.s))).map posKey).mergeSort keyLe
+
+/-- equality of everything the accrual theorems speak about except the history variables: accumulator, cursor, active
+    liquidity, tick sums, the growth outside of every tick in use, and the live positions -/
+def obsEq (ts : List Int) (a b : St) : Bool :=
+  a.G == b.G && a.cur == b.cur && a.active == b.active
+  && ts.all (fun t => a.gross t == b.gross t && a.net t == b.net t && (b.gross t == 0 || a.fo t == b.fo t))
+  && canonPos a.pos == canonPos b.pos
+
+def evOps (isDenomIn : Bool) : CL.SwapEv → List Op
+  | .fee f => if isDenomIn then [.fee f] else []
+  | .cross true t => [.crossUp t]
+  | .cross false t => [.crossDown t]
+  | .move t => [.moveWithin t]
+
+/-- index of position `id` among the stored positions of its pool (= its index in `absOf … .pos`) -/
+def posIndex (s : CL.St) (pool id : Nat) : Option Nat :=
+  ((s.positions.filter (·.pool == pool)).map (·.id)).idxOf? id
+
+/-- lock-step verdict for one (pool, denom): the abstraction of `after` must be what the abstract ops make of the
+    abstraction of `before`; the fee account must have been paid what `claim` pays and received at least what `fee` books -/
+def lockstep (before after : CL.St) (pool : Nat) (denom : String) (ops : List Op) : Bool :=
+  match absOf before pool denom 0, absOf after pool denom 0 with
+  | some a, some b =>
+    let ts := ticksOf before pool ++ ticksOf after pool
+    match runOps ts { a with recv := 0, paid := 0 } ops with
+    | some a' =>
+      let bal0 := before.bank.bal (CL.feesAddr pool) denom
+      let bal1 := after.bank.bal (CL.feesAddr pool) denom
+      obsEq ts a' b && decide ((bal1 - bal0) * PREC ≥ a'.recv - a'.paid)
+        && (a'.recv != 0 || decide ((bal0 - bal1) * PREC = a'.paid))
+    | none => false
+  | none, none => true
+  | _, _ => ops.isEmpty
+
 end Sunrise.CLAccrual
